@@ -681,7 +681,22 @@ impl<SE: extensions::ShellExtensions> ExecuteInPipeline<SE> for ast::Command {
                 // Set up any additional redirects.
                 if let Some(redirects) = redirects {
                     for redirect in &redirects.0 {
-                        setup_redirect(&mut pipeline_context.shell, &mut params, redirect).await?;
+                        // A redirection that can't be set up fails this command only; it does
+                        // not abort the enclosing command list, loop or group.
+                        if let Err(error) =
+                            setup_redirect(&mut pipeline_context.shell, &mut params, redirect).await
+                        {
+                            if error.is_fatal() {
+                                return Err(error);
+                            }
+
+                            let shell = &mut *pipeline_context.shell;
+                            let mut stderr = params.stderr(shell);
+                            let _ = shell.display_error(&mut stderr, &error);
+                            let result = ExecutionResult::general_error();
+                            shell.set_last_exit_status(result.exit_code.into());
+                            return Ok(result.into());
+                        }
                     }
                 }
 
